@@ -6,6 +6,7 @@
    or an array of n positive entries; [tw_vec n w] is its weight vector. *)
 From Coq Require Import Reals List Bool Permutation.
 From Verif Require Import Base.Num Base.Vec Base.VecR C02.Model C02.Proofs.
+From Verif Require Import C02.GenSyntax C02.GenSem Gen.Weighting C02.GenTie.
 Import ListNotations.
 Local Open Scope R_scope.
 
@@ -383,3 +384,31 @@ Theorem complex_pspace_inner_positive : forall q (s : @space R) (x0 : @elem R), 
     (re = 0 -> Forall (fun t => t = 0) (flat xr) /\ Forall (fun t => t = 0) (flat xi)).
 Proof. exact csp_inner_positive. Qed.
 Print Assumptions complex_pspace_inner_positive.
+
+(* ================= tie to the source by regeneration ================= *)
+(* Gen/Weighting.v is re-emitted from the CURRENT source on every run by translate/weighting.py
+   (fail closed).  Over ANY carrier (so for the executed Q instance and the proved R instance) the
+   hand-written model computes exactly what the generated dispatch tables say: the three-way
+   exponent dispatch and formulas of NumpyTensorSpaceConstWeighting.norm/.dist, the inner formulas
+   of both tensor weightings, the combination rules of ProductSpaceConstWeighting.norm/.dist and
+   ProductSpaceArrayWeighting.norm, the disjunction in DiscretizedSpace.is_uniformly_weighted (the
+   model's variant switches [gen_quirks] are read off the generated code), the per-slice factor of
+   _scaling_func_list and the default weighting of uniform_discr_frompartition. *)
+Theorem model_follows_generated_dispatch : forall (T : Type) (HN : Num T) (HR : Root T),
+  (forall (c : T) p x, t_norm_v (WConst c) p x = eval_tab c [] p x [] [] gen_tconst_norm) /\
+  (forall (c : T) p x y, t_dist_v (WConst c) p x y = eval_tab c [] p x y [] gen_tconst_dist) /\
+  (forall (c : T) p x y, t_inner_v (WConst c) x y = eval c [] p x y [] gen_tconst_inner) /\
+  (forall (a : list T) p x y, t_inner_v (WArr a) x y = eval nzero a p x y [] gen_tarr_inner) /\
+  (forall (c : T) p dn n, lpnorm p dn = Ok n ->
+     ps_dist_comb_const c p dn = Ok (eval_tab c [] p [] [] dn gen_pconst_dist)) /\
+  (forall (c : T) p norms n, lpnorm p norms = Ok n ->
+     ps_norm_comb (PWConst c) p norms = Ok (eval_tab c [] p [] [] norms gen_pconst_norm)) /\
+  (forall (a : list T) p norms,
+     ps_norm_comb (PWArr a) p norms = lpnorm p (eval_scale_tab a p norms gen_parr_norm_scaling)) /\
+  (forall (axes : list (@axis T)) (w : @tweight T) p,
+     unif_weighted gen_quirks axes w p = existsb (eval_uatom axes w p) gen_unif_weighted) /\
+  (forall (r : T -> T) (f : T), (if close1 f then none_ else r f) = eval_side gen_scaling r f) /\
+  (forall (axes : list (@axis T)) p,
+     d_weight axes LDefault p = WConst (eval_default gen_default_weighting axes p)).
+Proof. exact model_follows_generated. Qed.
+Print Assumptions model_follows_generated_dispatch.
